@@ -71,6 +71,12 @@ class Deny(Exception):
         self.cls = cls
 
 
+class StaleState(Exception):
+    """the policy read connection state other than the live configuration dictionary"""
+    def __init__(self, field):
+        self.field = field
+
+
 class Sym:
     """the attribute name (kind 'name') or prefix+name (kind 'twin')"""
     def __init__(self, kind):
@@ -91,6 +97,8 @@ class Policy:
         self.v = val
         self.perm_key = perm_key
         self.depth = 0
+        self.probed_name = False     # hasattr(obj, name) was evaluated (runs the target's getter / __getattr__)
+        self.probed_twin = False
 
     def config_get(self, key):
         v = self.v
@@ -171,6 +179,8 @@ class Policy:
         if isinstance(e, ast.Attribute):
             if K.self_attr(e, "_config"):
                 return "CONFIG"
+            if K.self_attr(e):
+                raise StaleState(K.self_attr(e))
             raise AnalysisError("_check_attr: unsupported attribute %s" % A.src(e))
         if isinstance(e, ast.Subscript):
             base = self.ev(e.value, env)
@@ -228,7 +238,11 @@ class Policy:
                 o = self.ev(e.args[0], env)
                 n = self.ev(e.args[1], env)
                 if isinstance(n, Sym):
-                    return self.v["has_twin"] if n.kind == "twin" else self.v["has_name"]
+                    if n.kind == "twin":
+                        self.probed_twin = True
+                        return self.v["has_twin"]
+                    self.probed_name = True
+                    return self.v["has_name"]
                 raise AnalysisError("_check_attr: hasattr on %s" % A.src(e.args[1]))
             if d == "bool" and len(e.args) == 1:
                 return _truth(self.ev(e.args[0], env))
@@ -333,7 +347,14 @@ def check_decision_table(ctx, rep):
             rows += 1
             pol = Policy(ctx, v, perm_key)
             try:
-                r = pol.call_function(f, ["SELF", "OBJ", Sym("name"), perm_key])
+                try:
+                    r = pol.call_function(f, ["SELF", "OBJ", Sym("name"), perm_key])
+                except StaleState as st_:
+                    rep.ob("R06.3", "_check_attr: the decision reads only the connection's live configuration", False,
+                           "the policy consults self.%s instead of the configuration dictionary: a configuration change made "
+                           "after construction (e.g. the blanket permissions a classic-mode service grants itself on connect, or "
+                           "switching exposed attributes off) is ignored" % st_.field, f.loc)
+                    return rows
                 val = r[1] if r else None
                 if isinstance(val, Sym):
                     got = "NAME" if val.kind == "name" else "TWIN"
@@ -345,6 +366,11 @@ def check_decision_table(ctx, rep):
             if got not in want:
                 key = (got, tuple(sorted(want)))
                 bad.setdefault(key, []).append((perm_key, v))
+            elif pol.probed_name and (got == "DENY" or not (v["allow_exposed_attrs"] and v["prefix_nonempty"] and v["has_twin"])):
+                # hasattr(obj, name) runs the target's property getter / __getattr__: it may only be evaluated to choose
+                # between the plain name and an existing exposed twin
+                key = ("PROBE", ("the plain attribute is evaluated by the policy itself",))
+                bad.setdefault(key, []).append((perm_key, v))
     rep.extra.setdefault("table_rows", {})["R06.3 valuations"] = rows
     if not bad:
         rep.ob("R06.3", "_check_attr: decision table over all feasible valuations", True,
@@ -353,6 +379,13 @@ def check_decision_table(ctx, rep):
     for (got, want), cases in sorted(bad.items()):
         perm_key, v = cases[0]
         on = sorted(k for k, b in v.items() if b)
+        if got == "PROBE":
+            rep.ob("R06.3", "_check_attr: the policy does not touch the plain attribute unless it must choose against an existing twin",
+                   False, "%d valuation(s), e.g. operation %s with true atoms %s: hasattr(obj, name) is evaluated although the name is "
+                   "denied / no exposed twin exists - the target's property getter or __getattr__ runs one extra time (a denied "
+                   "attribute is touched; a permitted one is evaluated twice)" % (len(cases), perm_key, on), f.loc,
+                   witness=["%s: %s" % (p_, sorted(k for k, b in vv.items() if b)) for p_, vv in cases[:6]], kind="table")
+            continue
         rep.ob("R06.3", "_check_attr: outcome %s where the policy dictates %s" % (got, "/".join(want)), False,
                "%d valuation(s) disagree; e.g. operation %s with true atoms %s: the code %s, the policy says %s"
                % (len(cases), perm_key, on, _explain(got), "/".join(want)), f.loc,
